@@ -15,7 +15,7 @@ import (
 
 func init() { Registry["C19"] = runC19 }
 
-const explanationC19 = "Decides structural necessary conditions of C19 on the request-ID, trace, sampler and capture middlewares through SSA path tables: (R19.1) on every path the downstream handler/invoker receives the context derived by GenerateRequestID / WithSpan / setTrace (HTTP, gRPC unary and stream); (R19.2) request-ID selection — the inbound value is consulted only under the trust flag, truncated to id[:limit] only under limit>0 ∧ len>limit, replaced by a fresh ID iff absent or empty, and stored under RequestIDKey; the HTTP and gRPC front-ends read the header/metadata only under the trust flag; (R19.3) trace extraction and injection tables mirror each other (TraceID header/metadata ↔ TraceIDKey, caller's span ↔ parent span, fresh span from the span function, WithSpan stores each argument under its own key); (R19.4) the sampler and discard list are consulted only when no inbound trace ID exists; (R19.6) the fixed sampler's 0 and 100 rows do not consult the RNG, NewSampler picks adaptive iff maxSamplingRate>0 with (rate,size) in order; (R19.7) ResponseCapture stores the status it forwards, adds the byte count the underlying writer returned, and records the implicit 200; (R19.8) every option constructor stores its argument into its own field; (R19.9) a wrapped server stream carries a context derived from the wrapped stream's own context; (R19.10) the shutdown sweep of the stream canceler visits every in-flight stream. (R19.11) the option that turns the incoming request-ID header on also names the header (fields stored together). (R19.12) every method of ResponseCapture that counts body bytes records the implicit 200 first. NOT decided: uniqueness/non-emptiness of generated IDs as values, sampling statistics, chains of calls at run time."
+const explanationC19 = "Decides structural necessary conditions of C19 on the request-ID, trace, sampler and capture middlewares through SSA path tables: (R19.1) on every path the downstream handler/invoker receives the context derived by GenerateRequestID / WithSpan / setTrace (HTTP, gRPC unary and stream); (R19.2) request-ID selection — the inbound value is consulted only under the trust flag, truncated to id[:limit] only under limit>0 ∧ len>limit, replaced by a fresh ID iff absent or empty, and stored under RequestIDKey; the HTTP and gRPC front-ends read the header/metadata only under the trust flag; (R19.3) trace extraction and injection tables mirror each other (TraceID header/metadata ↔ TraceIDKey, caller's span ↔ parent span, fresh span from the span function, WithSpan stores each argument under its own key); (R19.4) the sampler and discard list are consulted only when no inbound trace ID exists; (R19.6) the fixed sampler's 0 and 100 rows do not consult the RNG, NewSampler picks adaptive iff maxSamplingRate>0 with (rate,size) in order; (R19.7) ResponseCapture stores the status it forwards, adds the byte count the underlying writer returned, and records the implicit 200; (R19.8) every option constructor stores its argument into its own field; (R19.9) a wrapped server stream carries a context derived from the wrapped stream's own context; (R19.10) the shutdown sweep of the stream canceler visits every in-flight stream. (R19.11) the option that turns the incoming request-ID header on also names the header (fields stored together). (R19.12) every method of ResponseCapture that counts body bytes records the implicit 200 first. (R19.13) a sampler is created with the middleware, never per request. NOT decided: uniqueness/non-emptiness of generated IDs as values, sampling statistics, chains of calls at run time."
 
 // Current is the context of the running check (set by main).
 var Current *an.Ctx
@@ -128,6 +128,7 @@ func runC19(c *an.Ctx) string {
 	r19GRPCRequestID(c)
 	pairedStoresRule(c, "R19.11", "reqid") // turning the incoming header on names the header that is read
 	r1912BodyBookkeeping(c, "R19.12")
+	r1913SamplerLifetime(c, "R19.13")
 	r19WithSpan(c)
 	r19HTTPTrace(c)
 	r19GRPCTrace(c)
@@ -558,10 +559,12 @@ func r19GRPCTrace(c *an.Ctx) {
 		for _, p := range it.Paths {
 			ok := false
 			for _, cl := range p.CallEffects() {
-				if name == "UnaryServerTrace" && strings.HasPrefix(cl, "dyn:p3(grpc/middleware.withTrace(p0, p2.FullMethod, free:⟨middleware.NewTraceOptions(outer.p0)⟩), p1)") {
+				// the handler gets the context withTrace derived from the request's own context, the method name and the
+				// options of this interceptor (whatever else withTrace is handed, e.g. the interceptor's sampler)
+				if name == "UnaryServerTrace" && tracedHandlerCall(cl, false) {
 					ok = true
 				}
-				if name == "StreamServerTrace" && strings.HasPrefix(cl, "dyn:p3(p0, grpc/middleware.NewWrappedServerStream(grpc/middleware.withTrace(p1.Context(), p2.FullMethod, free:⟨middleware.NewTraceOptions(outer.p0)⟩), p1))") {
+				if name == "StreamServerTrace" && tracedHandlerCall(cl, true) {
 					ok = true
 				}
 			}
@@ -1022,4 +1025,77 @@ func r1912BodyBookkeeping(c *an.Ctx, rule string) {
 		c.Check(tests, rule, c.RefName(f)+"#implicit-status", f.Decl.Pos(), "the method that counts body bytes records the implicit 200 first", "the method counts body bytes (ContentLength) but never looks at StatusCode: a handler that writes its body through it without WriteHeader is recorded with status 0 although net/http sent 200")
 	}
 	c.Floor(rule, n, 1, "body-writing methods of ResponseCapture")
+}
+
+// tracedHandlerCall: the downstream handler is called with the context withTrace derived from the request's own
+// context, the method name and this interceptor's options (and whatever else withTrace is handed).
+func tracedHandlerCall(cl string, stream bool) bool {
+	if !strings.HasPrefix(cl, "dyn:p3(") {
+		return false
+	}
+	args := topArgs(cl)
+	if len(args) != 2 {
+		return false
+	}
+	wt, rest := args[0], args[1]
+	wantCtx := "p0"
+	if stream {
+		// dyn:p3(p0, NewWrappedServerStream(withTrace(...), p1))
+		if wt != "p0" || !strings.HasPrefix(rest, "grpc/middleware.NewWrappedServerStream(") {
+			return false
+		}
+		inner := topArgs(rest)
+		if len(inner) != 2 || inner[1] != "p1" {
+			return false
+		}
+		wt, wantCtx = inner[0], "p1.Context()"
+	} else if rest != "p1" {
+		return false
+	}
+	if !strings.HasPrefix(wt, "grpc/middleware.withTrace(") {
+		return false
+	}
+	wa := topArgs(wt)
+	return len(wa) >= 3 && wa[0] == wantCtx && wa[1] == "p2.FullMethod" && wa[2] == "free:⟨middleware.NewTraceOptions(outer.p0)⟩"
+}
+
+// r1913SamplerLifetime (R19.13): a sampler is a stateful object (the adaptive one counts requests and re-computes its
+// rate every sample-size requests). It belongs to the middleware, not to a request: every call of
+// TraceOptions.NewSampler in the runtime packages is made in a function that builds a middleware - a function that
+// takes neither a context nor a request - never in a function that handles one request. A sampler created per
+// request starts from its initial state every time and always samples: MaxSamplingRate limits nothing.
+func r1913SamplerLifetime(c *an.Ctx, rule string) {
+	n := 0
+	for _, dir := range []string{"middleware", "http/middleware", "grpc/middleware", "http/middleware/xray", "grpc/middleware/xray", "middleware/xray"} {
+		for _, f := range c.AllFuncs(dir) {
+			info := f.Pkg.TypesInfo
+			ast.Inspect(f.Decl, func(nd ast.Node) bool {
+				call, ok := nd.(*ast.CallExpr)
+				if !ok || !strings.HasSuffix(an.CalleeName(info, call), "TraceOptions).NewSampler") {
+					return true
+				}
+				n++
+				// the innermost function (declaration or literal) around the call
+				var params *ast.FieldList = f.Decl.Type.Params
+				ast.Inspect(f.Decl.Body, func(m ast.Node) bool {
+					if fl, ok := m.(*ast.FuncLit); ok && fl.Pos() <= call.Pos() && call.End() <= fl.End() {
+						params = fl.Type.Params
+					}
+					return true
+				})
+				perRequest := ""
+				if params != nil {
+					for _, fld := range params.List {
+						switch ts := types.ExprString(fld.Type); ts {
+						case "context.Context", "*http.Request", "http.ResponseWriter", "grpc.ServerStream":
+							perRequest = ts
+						}
+					}
+				}
+				c.Check(perRequest == "", rule, fmt.Sprintf("%s#NewSampler", c.RefName(f)), call.Pos(), "the sampler is created with the middleware, once", "the sampler is created in a function that handles one request (it takes a "+perRequest+"): every request gets a fresh sampler, whose first decision is always to sample, so the configured maximum sampling rate limits nothing")
+				return true
+			})
+		}
+	}
+	c.Floor(rule, n, 2, "sampler constructions in the trace middlewares")
 }
